@@ -98,8 +98,12 @@ func runC02(ctx *Ctx) {
 	ctx.Rep.Rule = "article-like pages in which every word is a unique token, over all block kinds (paragraphs, headings, nested lists, quotes, pre, data/layout tables, figures with captions before/after the image, pictures, link clusters, hidden blocks, embeds); distinct by tag structure of the distilled HTML; non-trivial = at least two retained words and at least one source word dropped"
 	fl := newCorr("filters")
 	defer fl.run(ctx)
+	tr, do := newCorr("textrender"), newCorr("docoutput")
+	defer tr.run(ctx)
+	defer do.run(ctx)
 	contentRun{id: "C02", n: [2]int{400, 20000}, url: pageURL,
 		corr: func(ctx *Ctx, x *distilled, replay interface{}) {
+			addRenderCases(tr, do, ctx.Rep, x.Src, pageURL, replay, 6)
 			pc.add(ctx, x.D, x.Root, true, replay)
 			pc.add(ctx, x.D, x.Root, false, replay)
 			addFiltersCase(fl, ctx.Rep, x.Src, pageURL, true, replay)
@@ -200,6 +204,8 @@ func runC05(ctx *Ctx) {
 	defer corrStrip.run(ctx)
 	on := newCorr("outputnodes")
 	defer on.run(ctx)
+	tr := newCorr("textrender")
+	defer tr.run(ctx)
 	ctx.Rep.Rule = "pages whose every element may carry on*, id, class, style, data-* and unknown attributes, over all retained kinds (paragraphs, lists, images, figures+captions, videos, data tables, embeds) and with script/style children inside tables, captions and tweets; distinct by structure; non-trivial = at least one retained element carried a forbidden attribute in the source"
 	contentRun{id: "C05", n: [2]int{300, 12000}, url: pageURL,
 		weights: []W{{"para", 30}, {"heading", 4}, {"list", 8}, {"quote", 4}, {"datatable", 8}, {"figure", 8}, {"img", 8}, {"video", 6}, {"embed", 8}, {"script", 4}, {"divwrap", 6}, {"pre", 2}},
@@ -226,6 +232,7 @@ func runC05(ctx *Ctx) {
 			}
 			corrStrip.add(sb.String(), strings.Join(parts, "|"), replay)
 			addOutputNodesCase(on, x.Src, replay)
+			addRenderCases(tr, nil, ctx.Rep, x.Src, pageURL, replay, 6)
 		},
 		extra: func(ctx *Ctx, i int, r *Rng) []string {
 			g := newPageGen(r)
@@ -252,10 +259,15 @@ func runC06(ctx *Ctx) {
 	urls := []string{"http://example.com/dir/page.html", "https://sub.example.org/a/b/c?x=1", "http://example.com/"}
 	ab := newCorr("absurl")
 	defer ab.run(ctx)
+	tr := newCorr("textrender")
+	defer tr.run(ctx)
 	for k, us := range urls {
 		u, _ := nurl.Parse(us)
 		cr := contentRun{id: "C06", n: [2]int{120, 4000}, url: u,
-			corr: func(ctx *Ctx, x *distilled, replay interface{}) { addAbsURLCase(ab, x.Src, u, replay) },
+			corr: func(ctx *Ctx, x *distilled, replay interface{}) {
+				addAbsURLCase(ab, x.Src, u, replay)
+				addRenderCases(tr, nil, ctx.Rep, x.Src, u, replay, 6)
+			},
 			weights: []W{{"para", 35}, {"list", 6}, {"datatable", 8}, {"figure", 10}, {"img", 10}, {"video", 8}, {"quote", 4}, {"divwrap", 5}, {"links", 4}},
 			setup:   func(g *PageGen) { g.RelURLs = true },
 			oracle: func(ctx *Ctx, x *distilled, replay interface{}) bool {
@@ -275,9 +287,15 @@ func runC07(ctx *Ctx) {
 	defer pc.run(ctx)
 	corrDF := newCorr("docfilters")
 	defer corrDF.run(ctx)
+	tr, do := newCorr("textrender"), newCorr("docoutput")
+	defer tr.run(ctx)
+	defer do.run(ctx)
 	ctx.Rep.Rule = "pages with nested ul/ol/li/blockquote/pre to depth 5, partially retained lists, content only in inner lists, media and data tables inside lists and quotes; distinct by structure; non-trivial = a retained word with chain length >= 2 and a list with both kept and dropped items"
 	contentRun{id: "C07", n: [2]int{500, 20000}, url: pageURL,
-		corr:    func(ctx *Ctx, x *distilled, replay interface{}) { pc.add(ctx, x.D, x.Root, true, replay) },
+		corr: func(ctx *Ctx, x *distilled, replay interface{}) {
+			pc.add(ctx, x.D, x.Root, true, replay)
+			addRenderCases(tr, do, ctx.Rep, x.Src, pageURL, replay, 6)
+		},
 		weights: []W{{"para", 25}, {"shortpara", 8}, {"list", 25}, {"quote", 15}, {"pre", 6}, {"datatable", 6}, {"img", 4}, {"figure", 3}, {"links", 6}, {"divwrap", 6}, {"embed", 3}, {"heading", 3}},
 		oracle: func(ctx *Ctx, x *distilled, replay interface{}) bool {
 			deep, partial := oracleC07(ctx.Rep, x, replay)
@@ -292,6 +310,9 @@ func runC09(ctx *Ctx) {
 	ctx.Rep.Rule = "article-like pages over all block kinds, plus text-only pages (inline mixes, anchors, br, detached punctuation) for the word-count clause; distinct by structure; non-trivial = a retained table or figure, or a text-only page with at least two retained blocks"
 	fl := newCorr("filters")
 	defer fl.run(ctx)
+	tr, do := newCorr("textrender"), newCorr("docoutput")
+	defer tr.run(ctx)
+	defer do.run(ctx)
 	contentRun{id: "C09", n: [2]int{300, 12000}, url: pageURL,
 		extra: func(ctx *Ctx, i int, r *Rng) []string {
 			g := newPageGen(r)
@@ -301,6 +322,7 @@ func runC09(ctx *Ctx) {
 		corr: func(ctx *Ctx, x *distilled, replay interface{}) {
 			addFiltersCase(fl, ctx.Rep, x.Src, pageURL, true, replay)
 			addFiltersCase(fl, ctx.Rep, x.Src, pageURL, false, replay)
+			addRenderCases(tr, do, ctx.Rep, x.Src, pageURL, replay, 8)
 		},
 		oracle: func(ctx *Ctx, x *distilled, replay interface{}) bool {
 			for _, l := range strings.Split(x.Res.Text, "\n") {
